@@ -9,3 +9,7 @@ open LasModel.Props.C10
 #print axioms C10_index_elem
 #print axioms C10_index_points
 #print axioms C10_minmax
+#print axioms C10_delegation_ops
+#print axioms C10_delegation_complete
+#print axioms C10_delegation_minmax
+#print axioms C10_cmp_routing
